@@ -17,6 +17,8 @@ def run(repo, rep):
     _log_rule(repo, rep, 'C01', 'C01.Z2')
     from ..api_pitfalls import truth_rule as _truth_rule
     _truth_rule(repo, rep, 'C01', 'C01.Z4')
+    from ..api_pitfalls import attribute_rule as _attribute_rule
+    _attribute_rule(repo, rep, 'C01', 'C01.Z5')
     lx = LayoutExtractor(repo)
     rep.trust('CPython struct / bytes / io.BytesIO semantics; pydicom uid.UID is a str subclass')
     rep.assume('A1: text fields (AE titles, UIDs, names) are ASCII, so len(x.encode()) == len(x) (PS3.8 requires it)')
